@@ -597,6 +597,37 @@ eqv('e33_policy_eq_matches', 'cachelito-core/src/eviction_policy.rs', """       
             (EvictionPolicy::TLRU, EvictionPolicy::TLRU) => true,
             _ => false,
         }""", """        std::mem::discriminant(self) == std::mem::discriminant(other)""", 'variant equality through mem::discriminant')
+eqv('e35_position_let_bound', G, """        let mut o = self.order.lock();
+        if let Some(pos) = o.iter().position(|k| *k == key_s) {
+            o.remove(pos);
+        }
+        o.push_back(key_s.clone());
+
+        // Always handle entry-count limits, regardless of memory limits""", """        let mut o = self.order.lock();
+        let found = o.iter().position(|k| *k == key_s);
+        if let Some(pos) = found {
+            o.remove(pos);
+        }
+        o.push_back(key_s.clone());
+
+        // Always handle entry-count limits, regardless of memory limits""", 'search result bound to a local first')
+eqv('e36_policy_eq_matches_macro', 'cachelito-core/src/eviction_policy.rs', """        match (self, other) {
+            (EvictionPolicy::FIFO, EvictionPolicy::FIFO) => true,
+            (EvictionPolicy::LRU, EvictionPolicy::LRU) => true,
+            (EvictionPolicy::LFU, EvictionPolicy::LFU) => true,
+            (EvictionPolicy::ARC, EvictionPolicy::ARC) => true,
+            (EvictionPolicy::Random, EvictionPolicy::Random) => true,
+            (EvictionPolicy::TLRU, EvictionPolicy::TLRU) => true,
+            _ => false,
+        }""", """        matches!(
+            (self, other),
+            (EvictionPolicy::FIFO, EvictionPolicy::FIFO)
+                | (EvictionPolicy::LRU, EvictionPolicy::LRU)
+                | (EvictionPolicy::LFU, EvictionPolicy::LFU)
+                | (EvictionPolicy::ARC, EvictionPolicy::ARC)
+                | (EvictionPolicy::Random, EvictionPolicy::Random)
+                | (EvictionPolicy::TLRU, EvictionPolicy::TLRU)
+        )""", 'the same table written with matches!')
 eqv('e20_negated_overflow', G, 'if o.len() > limit {', 'if !(o.len() <= limit) {', 'overflow test written through a negation')
 eqv('e21_negated_async_expiry', A, '                age >= ttl\n', '                !(age < ttl)\n', 'expiry test written through a negation')
 eqv('e22_negated_oversize', G, 'if new_value_size > max_mem {', 'if !(new_value_size <= max_mem) {', 'oversize test written through a negation')
